@@ -635,3 +635,26 @@ def plan_sizes(bounds, targets):
             d["cube"] = source(name, "cube", dims).n
         out[name] = d
     return out
+
+
+def bundles(shard_list, n):
+    """Group shards into about n work units, each holding shards of ONE architecture family (a forked worker that
+    touches a family's decode tables pays copy-on-write faults for them once: keep families together).
+    Deterministic; order of shards inside a bundle is the plan order."""
+    fam = {}
+    for s in shard_list:
+        fam.setdefault(Target(s[0]).testdir, []).append(s)
+    total = sum(s[4] - s[3] for s in shard_list)
+    cap = max(total // max(n, 1), 1)
+    out = []
+    for f in sorted(fam):
+        cur, size = [], 0
+        for s in fam[f]:
+            if cur and size + (s[4] - s[3]) > cap:
+                out.append(cur)
+                cur, size = [], 0
+            cur.append(s)
+            size += s[4] - s[3]
+        if cur:
+            out.append(cur)
+    return out
